@@ -50,7 +50,11 @@ def as_iterable(interp, v, node=None):
   if isinstance(v, dict): return list(v.keys())
   if isinstance(v, (range, str, bytes)): return list(v)
   if isinstance(v, SymComp): return materialize(interp, v, "list", node)
-  if isinstance(v, (SSet, SMap)): interp.unsupported("iterating a symbolic set/map", node)
+  if isinstance(v, SSet):
+    seq = enumerate_set(interp, v)
+    interp.last_enumeration = seq
+    return SymIter(seq.length, lambda ip, k, seq=seq: seq.at(ip.int_term(k)), v.key)
+  if isinstance(v, SMap): interp.unsupported("iterating a symbolic map", node)
   if isinstance(v, ObjVal):
     m = interp.lookup_method(v, "__iter__")
     if m is not None:
@@ -63,6 +67,32 @@ def as_iterable(interp, v, node=None):
     except TypeError as e:
       interp.raise_(TypeError, str(e), node=node)
   interp.unsupported("iteration over %r" % (v,), node)
+
+
+def enumerate_set(ip, s, increasing=False):
+  """Assumed contract of iterating a (finite) set: some sequence that holds every member exactly
+  once, in an unspecified order - or in increasing order for sorted(set of ints)."""
+  ctx = ip.ctx
+  res = ctx.fresh(V.Seq(s.key), "enum")
+  n = res.length
+  q = ip._qid()
+  i, j = z3.Int("en?i%d" % q), z3.Int("en?j%d" % q)
+  ks = s.key.sorts()[0]
+  x = z3.Const("en?x%d" % q, ks)
+  pos = ip.uf("enum_pos!%d" % q, [ks], z3.IntSort())
+  (li,) = s.key.leaves(res.at(i)); (lj,) = s.key.leaves(res.at(j))
+  ctx.assume(n >= 0)
+  ctx.assume(z3.ForAll([i], z3.Implies(z3.And(i >= 0, i < n), z3.Select(s.arr, li))))
+  if increasing:
+    ctx.assume(z3.ForAll([i, j], z3.Implies(z3.And(0 <= i, i < j, j < n), li < lj)))
+  else:
+    ctx.assume(z3.ForAll([i, j], z3.Implies(z3.And(0 <= i, i < j, j < n), li != lj)))
+  (lp,) = s.key.leaves(res.at(pos(x)))
+  ctx.assume(z3.ForAll([x], z3.Implies(z3.Select(s.arr, x),
+                                       z3.And(pos(x) >= 0, pos(x) < n, lp == x))))
+  ctx.assumed_contracts.add("iteration over a set / sorted(set): a sequence holding every member "
+                            "exactly once (increasing for sorted)")
+  return res
 
 
 def _may_raise(e):
@@ -469,6 +499,8 @@ def m_isinstance(ip, x, t):
 
 
 def m_sorted(ip, x, key=None, reverse=False):
+  if isinstance(x, SSet) and key is None and reverse is False and x.key == V.Int:
+    return enumerate_set(ip, x, increasing=True)
   it = as_iterable(ip, x)
   if isinstance(it, list) and not any(is_symbolic(v) for v in it) and key is None:
     try:
@@ -517,6 +549,9 @@ def m_getattr(ip, obj, name, *default):
 
 
 def m_type(ip, x):
+  if isinstance(x, V.SOpt):
+    if not ip.spec and ip.ctx.decide(x.isnone): return type(None)
+    return m_type(ip, x.val)
   if isinstance(x, SInt): return int
   if isinstance(x, SBool): return bool
   if isinstance(x, SStr): return str
@@ -651,6 +686,11 @@ def call_method(ip, base, name, args, kwargs, node=None):
       ip.unsupported("list.%s on symbolic list" % name, node)
     ip.unsupported("method %s of symbolic list" % name, node)
   if isinstance(base, SMap):
+    if args and isinstance(args[0], SOpt) and not isinstance(base.key, V.Opt) and not ip.spec \
+        and name != "get":
+      k = ip.narrow(args[0])
+      if k is None: ip.unsupported("dict.%s(None) on a dict keyed by %r" % (name, base.key), node)
+      args = [k] + list(args[1:])
     if args and isinstance(args[0], SOpt) and not isinstance(base.key, V.Opt):
       # a T|None key into a dict keyed by T: None is not a key
       k = args[0]
@@ -676,12 +716,38 @@ def call_method(ip, base, name, args, kwargs, node=None):
     if name == "update":
       return dict_update(ip, base, args[0], node), None
     if name == "copy": return None, SMap(base.key, base.val, base.present, base.arrs)
+    if name == "clear" and not args:
+      return SMap(base.key, base.val, z3.K(base.present.sort().domain(), z3.BoolVal(False)),
+                  base.arrs), None
     ip.unsupported("method %s of symbolic dict" % name, node)
   if isinstance(base, SSet):
+    if args and isinstance(args[0], SOpt) and not isinstance(base.key, V.Opt) and not ip.spec:
+      k = ip.narrow(args[0])
+      if k is None: ip.unsupported("set.%s(None) on a set of %r" % (name, base.key), node)
+      args = [k] + list(args[1:])
     if name == "add": return base.add(args[0]), None
     if name == "discard":
       (kl,) = base.key.leaves(args[0])
       return SSet(base.key, z3.Store(base.arr, kl, z3.BoolVal(False))), None
+    if name == "remove" and len(args) == 1:
+      if not ip.ctx.decide(ip._bt(base.has(args[0]))): ip.raise_(KeyError, args[0], node=node)
+      (kl,) = base.key.leaves(args[0])
+      return SSet(base.key, z3.Store(base.arr, kl, z3.BoolVal(False))), None
+    if name == "clear" and not args:
+      return SSet(base.key, z3.K(base.arr.sort().domain(), z3.BoolVal(False))), None
+    if name == "copy" and not args: return None, SSet(base.key, base.arr)
+    if name == "update" and len(args) == 1:
+      other = args[0]
+      if isinstance(other, SSet):
+        if other.arr.sort() != base.arr.sort(): ip.unsupported("set.update across sorts", node)
+        f_or = z3.Or(z3.Bool("a!"), z3.Bool("b!")).decl()
+        return SSet(base.key, z3.Map(f_or, base.arr, other.arr)), None
+      if isinstance(other, (list, tuple, set, frozenset)):
+        out = base
+        for x in (sorted(other, key=repr) if isinstance(other, (set, frozenset)) else other):
+          out = out.add(x)
+        return out, None
+      ip.unsupported("set.update(%r)" % (other,), node)
     ip.unsupported("method %s of symbolic set" % name, node)
   if isinstance(base, SStr):
     if name == "startswith" and len(args) == 1:
